@@ -157,7 +157,7 @@ Grids == {[shape |-> "grid", n |-> g * g, r |-> s, span |-> g, a |-> 0, ord |-> 
 ParamSeq == SetToSeq(Rings) \o SetToSeq(Arcs) \o SetToSeq(Runs) \o SetToSeq(Grids)
 Wanted(k) == LET p == ParamSeq[k]
              IN /\ k % Shards = Shard
-                /\ (Thorough \/ p.shape \in {"ring", "arc"} \/ (k + Seed) % 3 = 0)
+                /\ (Thorough \/ p.shape \in {"ring", "arc"} \/ ((k \div Shards) + Seed) % 3 = 0)
 
 Build(id, p) ==
     LET u == IF p.shape = "run" /\ p.span # 4 THEN 4 ^ p.a ELSE 1          \* runs along x are stretched along x
